@@ -685,15 +685,33 @@ class Engine:
                 results = nxt
         out = []
         self.inline_depth += 1
+        is_gen = not isinstance(node, ast.Lambda) and any(
+            isinstance(n, (ast.Yield, ast.YieldFrom)) for st_ in node.body for n in ast.walk(st_)
+            if not isinstance(n, (ast.FunctionDef, ast.Lambda)))
         try:
             for s, b in results:
                 inner = State({**env, **b}, s.pc, s.ghost)
+                if is_gen:
+                    # a generator function called from the analysed code: its body runs when the result is
+                    # consumed; pyxform consumes every generator it creates exactly once and immediately
+                    # (node(), tuple(), for), so it is evaluated eagerly here with its own yield list
+                    outer_yield = s.ghost.get("yield")
+                    inner.ghost["yield"] = []
                 if isinstance(node, ast.Lambda):
                     for s2, v in self.eval(node.body, inner):
                         out.append((State(s.vars, s2.pc, s2.ghost), v))
                 else:
                     for oc in self.exec_block(node.body, inner):
                         caller = State(s.vars, oc.state.pc, oc.state.ghost)
+                        if is_gen:
+                            from .dom_model import gen_value
+
+                            ys = caller.ghost.pop("yield", [])
+                            if outer_yield is not None:
+                                caller.ghost["yield"] = outer_yield
+                            if oc.kind in ("normal", "return"):
+                                out.append((caller, gen_value(ys)))
+                                continue
                         if oc.kind == "normal":
                             out.append((caller, NONE))
                         elif oc.kind == "return":
